@@ -5,6 +5,7 @@ from pyvc.values import UNFOLD, ForallList, LEMMA_HOOKS
 from pyvc.contracts import Contract, Lemma
 from pyvc.symexec import attr0, field0, LoopContract, PyFunc, PyTuple, Raise
 from .common import *
+from pyvc import symexec as SX
 
 TRF = 'tartiflette/language/parsers/libgraphqlparser/transformers.py::'
 NamedTypeOfAst = z3.Function('ParsedNamedType', V, V)        # _parse_named_type(json): a NamedTypeNode
@@ -146,3 +147,60 @@ class ParseField(Contract):
 
 
 CONTRACTS.append(ParseField())
+
+
+# ---- Validators.validate: the single entry point of rule validation -- no reported error is lost, an aborting rule stops the rest
+class ValidatorsValidate(Contract):
+    """Validators.validate: unless an earlier aborting rule failed, the named rule is run once with the path, the schema, the call's arguments and
+    the whole context; every error it returns is appended to `errors`; the abort flag is raised exactly when an aborting rule reported something"""
+    key = 'tartiflette/language/validators/__init__.py::Validators.validate'
+    property_ids = ('C07', 'C06')
+    params = ['self', 'rule', 'path']
+    self_class = 'Validators'
+    modifies_fields = ('errors', '_abort')
+
+    def args(self, en, names):
+        self.A = A = super().args(en, names)
+        self.kwrest = fresh('rule_arguments')
+        A['kwargs'] = SX.KwBundle({}, self.kwrest)
+        self.rule_errors = fresh('rule_errors')
+        return A
+
+    def _rule(self, A):
+        return lookup(V.ditems(attr0(A['self'], 'rules')), A['rule'])
+
+    def pre(self, A, st):
+        me = A['self']
+        r = self._rule(A)
+        return [('validators', z3.And(V.oref(me) >= 0, V.is_Dict(attr0(me, 'rules')), V.is_List(fld(st, 'errors', me)), V.is_Bool(fld(st, '_abort', me)), V.is_Dict(attr0(me, 'ctx')))),
+                ('rule', z3.And(V.is_Str(A['rule']), r != V.Missing, inst(r, 'ValidationRule'), V.oref(r) >= 0, V.is_Bool(attr0(r, 'abort')))),
+                ('rule_result', V.is_List(self.rule_errors))]
+
+    def ghost0(self, A):
+        return {'rule_calls': z3.IntVal(0), 'rule_args': V.Missing}
+
+    def getattr_hook(self, en, st, v, attr):
+        if attr == 'validate' and not z3.eq(v, self.A['self']):
+            def run(en, s, a, kw, v=v):
+                ok = len(a) == 0 and set(kw) == {'path', 'schema', '**', '**2'}
+                rec = V.Tuple(mklist(v, en.read(kw['path'], s), en.read(kw['schema'], s), en.read(kw['**'], s), en.read(kw['**2'], s))) if ok else V.Missing
+                return [(s.put_ghost('rule_calls', s.ghost['rule_calls'] + 1).put_ghost('rule_args', rec), self.rule_errors)]
+            return [(st, PyFunc('rule.validate', run))]
+        return None
+
+    def post(self, A, st0, out):
+        if out.kind == 'raise':
+            return never_raises(out)
+        me, g, st = A['self'], out.st.ghost, out.st
+        r = self._rule(A)
+        aborted0 = V.b(fld(st0, '_abort', me))
+        e0, e1 = V.items(fld(st0, 'errors', me)), V.items(fld(st, 'errors', me))
+        reported = z3.Not(VL.is_nil(V.items(self.rule_errors)))
+        return [('nothing_runs_after_an_abort', z3.Implies(aborted0, z3.And(g['rule_calls'] == 0, e1 == e0, V.b(fld(st, '_abort', me))))),
+                ('the_rule_runs_once_with_path_schema_arguments_and_context',
+                 z3.Implies(z3.Not(aborted0), z3.And(g['rule_calls'] == 1, g['rule_args'] == V.Tuple(mklist(r, A['path'], attr0(me, 'schema'), self.kwrest, attr0(me, 'ctx')))))),
+                ('every_reported_error_is_kept', z3.Implies(z3.Not(aborted0), e1 == app(e0, V.items(self.rule_errors)))),
+                ('abort_iff_an_aborting_rule_reported', z3.Implies(z3.Not(aborted0), V.b(fld(st, '_abort', me)) == z3.And(V.b(attr0(r, 'abort')), reported)))]
+
+
+CONTRACTS.append(ValidatorsValidate())
